@@ -81,6 +81,12 @@ def build(case) -> Built:
     def external_torque(time, angular_position, angular_speed):
         t, th, w = to_si(time), to_si(angular_position), to_si(angular_speed)
         val = M.load_si(load, t, th, w)
+        if load.get('lib_trig') and load.get('csin'):
+            # the position-dependent term written the way the documentation's examples do it, with the library's own
+            # trigonometric method and a frequency (the oracle keeps evaluating the plain formula on recorded values)
+            import math
+            val = M.load_si(dict(load, csin=0.0), t, th, w) + \
+                load['csin'] * angular_position.sin(frequency=load['kpos'] / (2 * math.pi))
         b.load_log.append((t, th, w, val))
         v = val / U.factor_f('Torque', load['unit'])
         if load.get('numpy'):
